@@ -122,9 +122,14 @@ static bool ScalarEnc(EncoderBuffer &eb, uint64_t v) { T t; memcpy(&t, &v, sizeo
 template <typename T>
 static bool ScalarDec(DecoderBuffer &db, uint64_t v) { T t, o; memcpy(&t, &v, sizeof(T)); if (!db.Decode(&o)) return false; return memcmp(&t, &o, sizeof(T)) == 0; }
 
+// Coder objects are designed for reuse (StartEncoding / StartDecoding reset them): when g_reuse_coders is set, one
+// encoder and one decoder object per coder type serve every sequence of the case (and of later cases of the worker).
+static thread_local bool g_reuse_coders = false;
 template <class Enc>
 static void CoderEnc(EncoderBuffer &eb, const Op &op) {
-  Enc e;
+  static thread_local Enc persistent;
+  Enc fresh;
+  Enc &e = g_reuse_coders ? persistent : fresh;
   e.StartEncoding();
   for (auto &b : op.bits) {
     if (b.first == 0) e.EncodeBit(b.second != 0); else e.EncodeLeastSignificantBits32(b.first, b.second);
@@ -133,7 +138,9 @@ static void CoderEnc(EncoderBuffer &eb, const Op &op) {
 }
 template <class Dec>
 static int CoderDec(DecoderBuffer &db, const Op &op, bool check) {
-  Dec d;
+  static thread_local Dec persistent;
+  Dec fresh;
+  Dec &d = g_reuse_coders ? persistent : fresh;
   if (!d.StartDecoding(&db)) return 1;
   for (auto &b : op.bits) {
     if (b.first == 0) {
@@ -368,6 +375,8 @@ static void MixedCase(Rng &r, Reporter &rep, bool thorough) {
 int main(int argc, char **argv) {
   return vf::RunHarness(argc, argv, "C17", [](int64_t k, Rng &r, Reporter &rep) {
     bool thorough = rep.args().tier == "thorough";
+    g_reuse_coders = (k % 2) == 1;
+    rep.count(g_reuse_coders ? "coder_objects/reused" : "coder_objects/fresh");
     if (k == 0) { VarintExhaustive<uint8_t>(rep, "u8"); VarintExhaustive<int8_t>(rep, "i8"); rep.held(0xC17000, true); return; }
     if (k == 1) { VarintExhaustive<uint16_t>(rep, "u16"); rep.held(0xC17001, true); return; }
     if (k == 2) { VarintExhaustive<int16_t>(rep, "i16"); rep.held(0xC17002, true); return; }
